@@ -226,6 +226,41 @@ def run(rep, pid, feats, n, findings, rule, gover="1.21", tapes=3, histlen=10, b
         rep.violation(rep.write_replay("structural", replay), "no-failing-input-found")
         return R, progs
 
+    # ---- behavioural correspondence: Coq semantics (Sem.v / CExec.v) vs reference run and compiled run ----
+    rows, rmeta = [], []
+    for ci, c in enumerate(R["cases"]):
+        p = by.get(c["prog"])
+        if p is None or p.get("body") is None or not structcheck.beh_eligible(p["body"]) or len(rows) >= (240 if n <= 400 else 1500):
+            continue
+        try:
+            src = structcheck.src_stmts(p["body"]) + [{"s": "return"}]
+            rows.append(structcheck.beh_case(src, c["tape"], c["budget"], len(c["hist"]) // 2, R["ref"][ci]["events"], R["out"][ci]["events"]))
+            rmeta.append(ci)
+        except structcheck.Unknown:
+            pass
+    bm = []
+    if rows:
+        bw = C.workdir(pid + "bh")
+        try:
+            bm = structcheck.beh_compare(bw, rows)
+        finally:
+            C.rmtree(bw)
+    rep.coverage["semantics_vs_runs_comparisons"] = len(rows)
+    rep.coverage["semantics_vs_runs_mismatches"] = len(bm)
+    if bm and not unexplained:
+        j, code = bm[0]
+        ci = rmeta[j]
+        name = R["cases"][ci]["prog"]
+        what = {1: "Coq source semantics (Sem.exec) differs from the reference run on refco",
+                2: "Coq target semantics of the model's rewriter output differs from the really compiled run",
+                3: "Coq semantics stuck or out of fuel", 4: "model rejects the program"}[code]
+        rep.violation(rep.write_replay("semantics", {
+            "what": "correspondence broken: " + what, "correspondence": "coq/CExec.v check_bcase code %d" % code,
+            "program_go_co": pgen.render_func(name, by[name]["body"], "co"), "program_abstract": by[name]["body"],
+            "tape": R["cases"][ci]["tape"], "compiled_events": R["out"][ci]["events"], "reference_events": R["ref"][ci]["events"],
+            "searched": "compiled and reference runs of all generated programs agree in this run"}), "no-failing-input-found")
+        return R, progs
+
     if unexplained:
         name, i = unexplained[0]
         prog = by[name]
